@@ -776,6 +776,9 @@ class DataFrame(_Gap):
     def unstack(self):
         return _Unstacked(self)
 
+    def groupby(self, by):
+        return _FrameGroupBy(self, by)
+
     def apply(self, fn, axis=0):
         if fn is tuple and axis in (1, "columns"):
             n = len(self.present)
@@ -818,6 +821,43 @@ class DataFrame(_Gap):
         if isinstance(self.index, MultiIndex):
             raise ModelGap("sort_values with MultiIndex")
         return DataFrame(cols, present=newp, index=Index(perm(self.index.labels), newp, self.index.name))
+
+
+class _FrameGroupBy:
+    """groupby on columns whose values are concrete (the grouping keys are not symbolic; the grouped values are)"""
+
+    def __init__(self, df, by, col=None):
+        self.df, self.by, self.col = df, by, col
+        keys = [by] if isinstance(by, str) else list(by)
+        self.keycols = []
+        for k in keys:
+            c = df._get(k)
+            vals = []
+            for x in c.vals:
+                if z3.is_expr(x):
+                    if z3.is_int_value(x):
+                        vals.append(x.as_long())
+                    elif z3.is_string_value(x):
+                        vals.append(x.as_string())
+                    else:
+                        raise ModelGap("groupby on a symbolic key column")
+                else:
+                    vals.append(x)
+            self.keycols.append(vals)
+        self.scalar = isinstance(by, str)
+
+    def __getitem__(self, col):
+        return _FrameGroupBy(self.df, self.by, col)
+
+    def __iter__(self):
+        n = len(self.df.present)
+        rowkeys = [tuple(kc[i] for kc in self.keycols) for i in range(n)]
+        for key in sorted(set(rowkeys)):
+            mask = [z3.And(self.df.present[i], z3.BoolVal(rowkeys[i] == key)) for i in range(n)]
+            if not eng().branch(zor(mask)):  # pandas yields no empty groups
+                continue
+            sub = DataFrame(self.df._cols, present=mask, index=self.df.index.with_present(mask))
+            yield (key[0] if self.scalar else key), (sub if self.col is None else sub._get(self.col))
 
 
 class _ByLabel(dict):
